@@ -358,6 +358,9 @@ def assign_file_attrs(rng, world, toks):
             age = t + rng.choice([-600, 600, -86400, 86400, 7200, -3600])
         else:
             age = rng.choice([0, 3600, 86400 * 3, 86400 * 40, 86400 * 400])
+        for t in thr_t:               # never closer than 600 s to a threshold (the clock moves)
+            if abs(age - t) < 600:
+                age = t + 600
         if thr_s and rng.random() < 0.8:
             s = rng.choice(thr_s)
             size = max(0, s + rng.choice([-1, 0, 1, -1, 1, 1000, -1000]))
@@ -476,32 +479,42 @@ def coq_input(world, toks, tty, an):
     pats = sorted({p for k, v in toks if k == "x" for p in v} | {v for k, v in toks if k == "t"})
     pid = {p: (0 if p == BAD_PATTERN else i + 1) for i, p in enumerate(pats)}
 
+    def nl(xs):
+        xs = list(xs)
+        return "[" + ";".join(str(int(x)) for x in xs) + "]%N" if xs else "[]"
+
     def ids(ns):
-        return clist([cN(fid[n]) for n in ns], "N")
+        return nl(fid[n] for n in ns)
     tl = []
     for k, v in toks:
         if k in "IEfp":
             tl.append({"I": "TInst", "E": "TExists", "f": "TFetch", "p": "TPretend"}[k])
         elif k == "x":
-            tl.append("TExcl " + clist([cN(pid[p]) for p in v], "N"))
+            tl.append("TExcl " + nl(pid[p] for p in v))
         elif k == "m":
             tl.append("TMod " + cstr(v))
         elif k == "s":
             tl.append("TSize " + cstr(v))
         else:
-            tl.append(f"TTarget {cN(pid[v])}")
+            tl.append(f"TTarget {pid[v]}%N")
     pk = []
     for cpv, n, f in world["pkgs"]:
         mp = [pid[p] for p in pats if p != BAD_PATTERN and pat_matches(p, cpv)]
-        pk.append("{| p_files := %s; p_fetch := %s; p_pats := %s |}"
-                  % (ids(n), cbool(f), clist([cN(x) for x in mp], "N")))
-    order = list(world["files"].items())
-    fl = ["{| f_id := %s; f_age := %s; f_size := %s |}" % (cN(fid[n]), cZ(a), cZ(s)) for n, (a, s) in order]
-    term = ("{| i_argv := %s; i_world := {| w_all := %s; w_repo := %s; w_inst := %s |}; i_sel := %s; i_tty := %s |}"
+        pk.append("mkp %s %s %s" % (ids(n), cbool(f), nl(mp)))
+    fl = ["mkf %d %s %d" % (fid[n], f"({a})" if a < 0 else a, s) for n, (a, s) in world["files"].items()]
+    term = ("mki %s %s %s %s %s %s"
             % (clist(tl, "tok"), clist(fl, "finfo"), clist(pk, "pkg"),
                clist([ids(n) for n in world["inst"]], "list N"),
                ids(sorted(an["sel"] & set(world["files"]))), cbool(tty)))
-    return term, fid
+    return term, fid, nl
+
+
+class ResList(list):
+    """the canonical result [status, left ids, printed ids] + its compact Coq rendering"""
+
+    def __init__(self, xs, raw):
+        super().__init__(xs)
+        self.raw = raw
 
 
 def shuffle_files(rng, world):
@@ -513,10 +526,12 @@ def shuffle_files(rng, world):
 def one_case(chk, world, toks, tty):
     an = analyse(world, toks)
     status, left, printed = execute(chk, world, toks, tty)
-    term, fid = coq_input(world, toks, tty, an)
+    term, fid, nl = coq_input(world, toks, tty, an)
     unknown = [n for n in left + printed if n not in fid]
     res = [None if status == 0 else status if isinstance(status, Err) else int(status),
            [fid.get(n, 0) for n in left], [fid.get(n, 0) for n in printed]]
+    from .common import Raw, cval
+    res = ResList(res, Raw("res %s %s %s" % (cval(res[0]), nl(res[1]), nl(res[2]))))
     removed = sorted(set(world["files"]) - set(left))
     bad = oracle(world, toks, an, removed + printed)
     if unknown and not bad:
@@ -557,12 +572,13 @@ def main(chk: Check):
     chk.check_fingerprint(ANCHORS)
 
     rng = chk.rng
-    cases, meta, prop_bad = [], [], []
+    cases, results, meta, prop_bad = [], [], [], []
     branch = defaultdict(int)
 
     def add(world, toks, tty, stream):
         term, res, an, removed, printed, bad = one_case(chk, world, toks, tty)
-        cases.append((term, res))
+        cases.append((term, res.raw))
+        results.append(res)
         meta.append((world, toks, tty, stream))
         chk.count(stream)
         if bad:
@@ -603,7 +619,7 @@ def main(chk: Check):
                  "files": {k: tuple(v) for k, v in w["files"].items()}}
         add(world, [(k, v) for k, v in d["toks"]], d["tty"], "corpus")
 
-    n_dist = chk.n(260, 4000)
+    n_dist = chk.n(260, 2400)
     for i in range(n_dist):
         world = gen_world(rng, chk.thorough)
         toks, tty = gen_argv(rng, world)
@@ -612,14 +628,14 @@ def main(chk: Check):
         add(world, toks, tty, "dist")
         if i < 3:
             chk.sample({"stream": "dist", "argv": argv_strings(toks), "tty": tty,
-                        "distdir": sorted(world["files"]), "impl_status_left_printed": cases[-1][1]})
-    for i in range(chk.n(40, 500)):
+                        "distdir": sorted(world["files"]), "impl_status_left_printed": list(results[-1])})
+    for i in range(chk.n(40, 300)):
         world = gen_world(rng, False)
         toks, tty = gen_argv(rng, world, bad=True)
         assign_file_attrs(rng, world, toks)
         res = add(world, toks, tty, "bad")
         if i == 0:
-            chk.sample({"stream": "bad", "argv": argv_strings(toks), "impl": res})
+            chk.sample({"stream": "bad", "argv": argv_strings(toks), "impl": list(res)})
     chk.cov["branches"] = dict(sorted(branch.items()))
 
     # ---- qty stream
@@ -655,9 +671,13 @@ def main(chk: Check):
     if not ok:
         return
     # ---- evaluate model and spec inside Coq
-    r = chk.coq_eval("dist", IMPORTS, "input", cases,
-                     ["mismatches run cases", "where_ (fun i r => negb (spec_ok i r)) cases"], shard=100)
-    rq = chk.coq_eval("qty", IMPORTS, "bool * str", qc2, ["mismatches run_qty cases"])
+    import concurrent.futures as cf
+    with cf.ThreadPoolExecutor(max_workers=2) as ex:      # the two streams side by side
+        fr = ex.submit(chk.coq_eval, "dist", IMPORTS, "input", cases,
+                       ["mismatches run cases", "where_ (fun i r => negb (spec_ok i r)) cases"],
+                       shard=chk.n(160, 250))
+        fq = ex.submit(chk.coq_eval, "qty", IMPORTS, "bool * str", qc2, ["mismatches run_qty cases"])
+        r, rq = fr.result(), fq.result()
     spec_bad = []
     if r is not None:
         spec_bad = r[1]
@@ -668,14 +688,14 @@ def main(chk: Check):
         for i in spec_bad[:3]:
             world, toks, tty, _s = meta[i]
             chk.violation("property", {"what": "Spec_C46.spec_ok rejects the implementation's result",
-                                       "input": describe(world, toks, tty), "implementation": cases[i][1]})
+                                       "input": describe(world, toks, tty), "implementation": list(results[i])})
     if r is not None:
         for i in r[0][:3]:
             world, toks, tty, stream = meta[i]
             chk.violation("correspondence",
                           {"what": f"implementation and Model_C46.run disagree on stream '{stream}' "
                                    "(theorems of Prop_C46 no longer speak about this code)",
-                           "input": describe(world, toks, tty), "implementation": cases[i][1],
+                           "input": describe(world, toks, tty), "implementation": list(results[i]),
                            "coq_input": cases[i][0]},
                           no_input=not (prop_bad or spec_bad))
     if rq is not None:
@@ -703,10 +723,10 @@ def replay(chk, data):
              "inst": d["installed_distfiles"], "files": {k: tuple(v) for k, v in d["distdir"].items()}}
     toks = [(k, v) for k, v in d["toks"]]
     term, res, an, removed, printed, bad = one_case(chk, world, toks, d["tty"])
-    print("implementation: status/left/printed =", res)
+    print("implementation: status/left/printed =", list(res))
     print("removed:", removed, " would remove:", printed)
     print("needed:", sorted(an["needed"]), " selected:", sorted(an["sel"]))
     print("oracle:", bad or "ok")
-    r = chk.coq_eval("replay", IMPORTS, "input", [(term, res)],
+    r = chk.coq_eval("replay", IMPORTS, "input", [(term, res.raw)],
                      ["mismatches run cases", "where_ (fun i r => negb (spec_ok i r)) cases"])
     print("model disagrees:" if r and r[0] else "model agrees", "; spec rejects" if r and r[1] else "; spec accepts")
